@@ -644,7 +644,12 @@ def eval_flat(ns: dict, src: str, fields, o: Opts, vals, want_coq=True) -> Eval:
         ev.what = (f"to_dict({kwargs_src(o)}) raised {type(ex).__name__}: {ex}; projection of the plain output "
                    f"{plain!r} is {expected!r}")
         ev.kind = "raised-" + type(ex).__name__
-        if isinstance(ex, TypeError):
+        if o.entry == "toml" and isinstance(ex, TypeError) and "not TOML serializable" in str(ex):
+            # the encoder met a None: the mapping handed to it kept a None-valued key.  Under the signature of
+            # call-dialect-vs-flag-defaults that is the listed finding (the mapping predicted for it contains None)
+            if d14_signature(o) and any(v is None for v in project(effective_d14(o), fields, defaults, inst, plain).values()):
+                ev.kind = "call-dialect-vs-flag-defaults"
+        elif isinstance(ex, TypeError):
             if want_coq:
                 ev.coq = coq_case(o, fields, defaults, inst, plain, None, real_nullables(ns, "X", fields))
         return ev
